@@ -103,7 +103,8 @@ static void on_signal(int sig)
   _exit(0);
 }
 
-typedef uint64_t (*kfn)(uint64_t, uint64_t, uint64_t, uint64_t, uint64_t, uint64_t, uint64_t, uint64_t);
+typedef uint64_t (*kfn)(uint64_t, uint64_t, uint64_t, uint64_t, uint64_t, uint64_t, uint64_t, uint64_t, uint64_t, uint64_t, uint64_t, uint64_t,
+                        uint64_t, uint64_t, uint64_t, uint64_t);
 
 static void run_case(const std::vector<std::string>& lines)
 {
@@ -163,12 +164,12 @@ static void run_case(const std::vector<std::string>& lines)
         fflush(stdout);
         _exit(0);
       }
-      uint64_t a[8] = { 0 };
-      for (size_t i = 2; i < tok.size() && i < 10; i++) a[i - 2] = parse_arg(tok[i]);
+      uint64_t a[16] = { 0 };
+      for (size_t i = 2; i < tok.size() && i < 18; i++) a[i - 2] = parse_arg(tok[i]);
       called = true;
       if (sigsetjmp(g_jb, 0) == 0) {
         g_in_call = true;
-        uint64_t r = ((kfn)sym)(a[0], a[1], a[2], a[3], a[4], a[5], a[6], a[7]);
+        uint64_t r = ((kfn)sym)(a[0], a[1], a[2], a[3], a[4], a[5], a[6], a[7], a[8], a[9], a[10], a[11], a[12], a[13], a[14], a[15]);
         g_in_call = false;
         printf("status ret %llx\n", (unsigned long long)r);
       } else {
